@@ -376,3 +376,70 @@ def close_pool():
     if _pool[0] is not None:
         _pool[0].close()
         _pool[0] = None
+
+
+# ---------------------------------------------------------------------------
+# sampling refuter: models of the hypotheses with randomly pinned variables, goal evaluated exactly
+# ---------------------------------------------------------------------------
+
+def sample_refute(hyps, goal, tries=12, seed=0, timeout_ms=2000):
+    """Looks for a model of ``hyps`` (pinning variables one by one to small random rationals)
+    in which ``goal`` evaluates to False by exact rational evaluation. Sound as a refutation:
+    the returned model satisfies hyps (checked by z3 with all variables pinned) and falsifies goal."""
+    import random
+    rng = random.Random(seed)
+    ctx = Z3Ctx()
+    zh = [ctx.tr(h) for h in hyps]
+    zg = ctx.tr(goal)
+    if ctx.apps:
+        return None          # uninterpreted / axiomatised functions: exact evaluation not available
+    vs = [v for v in tm.free_vars(*(list(hyps) + [goal])) if v.sort != BOOL]
+    if not vs:
+        return None
+    pool_vals = [Fraction(n, d) for n in range(-6, 7) for d in (1, 2, 3, 5)]
+    for _ in range(tries):
+        s = z3.Solver()
+        s.set('timeout', timeout_ms)
+        for h in zh + ctx.axioms:
+            s.add(h)
+        order = vs[:]
+        rng.shuffle(order)
+        pinned = {}
+        ok = True
+        for v in order:
+            zv = ctx.tr(v)
+            placed = False
+            for _k in range(4):
+                val = rng.choice(pool_vals)
+                if v.sort == INT:
+                    val = Fraction(int(val))
+                s.push()
+                s.add(zv == (z3.IntVal(int(val)) if v.sort == INT else z3.RealVal(str(val))))
+                if s.check() == z3.sat:
+                    pinned[v.data] = val
+                    placed = True
+                    break
+                s.pop()
+            if not placed:
+                r = s.check()
+                if r != z3.sat:
+                    ok = False
+                    break
+                mv = _val(s.model().eval(zv, model_completion=True))
+                if not isinstance(mv, Fraction):
+                    ok = False        # irrational value: exact evaluation impossible
+                    break
+                s.add(zv == z3.RealVal(str(mv)) if v.sort != INT else zv == z3.IntVal(int(mv)))
+                pinned[v.data] = mv
+        if not ok:
+            continue
+        try:
+            hv = all(tm.evaluate(h, pinned, exact=True) for h in hyps)
+            gv = tm.evaluate(goal, pinned, exact=True)
+        except (ZeroDivisionError, TypeError, ValueError, KeyError):
+            continue
+        if isinstance(gv, float) or not hv:
+            continue
+        if gv is False or gv == False:        # noqa
+            return {'vars': dict(pinned), 'funcs': {}, 'by': 'sample_refute (exact rational evaluation)'}
+    return None
